@@ -984,6 +984,38 @@ func (x *Exec) copyFields(st *State, dstKey string, src ast.Expr, env *Env) *Sta
 	return st
 }
 
+// EqPredicateOperand: e is `func(x T) bool { return bytes.Equal(x, K) }` (either
+// operand order) with K not the literal's parameter; returns K.
+func EqPredicateOperand(p *core.Prog, e ast.Expr) ast.Expr {
+	fl, ok := ast.Unparen(e).(*ast.FuncLit)
+	if !ok || len(fl.Body.List) != 1 || fl.Type.Params == nil || len(fl.Type.Params.List) != 1 || len(fl.Type.Params.List[0].Names) != 1 {
+		return nil
+	}
+	rs, ok := fl.Body.List[0].(*ast.ReturnStmt)
+	if !ok || len(rs.Results) != 1 {
+		return nil
+	}
+	call, ok := ast.Unparen(rs.Results[0]).(*ast.CallExpr)
+	if !ok || len(call.Args) != 2 {
+		return nil
+	}
+	if f := p.Callee(call); f == nil || core.FuncFullName(f) != "bytes.Equal" {
+		return nil
+	}
+	po := p.Info.Defs[fl.Type.Params.List[0].Names[0]]
+	isParam := func(a ast.Expr) bool {
+		id, ok := ast.Unparen(a).(*ast.Ident)
+		return ok && p.Info.Uses[id] == po
+	}
+	switch {
+	case isParam(call.Args[0]) && !isParam(call.Args[1]):
+		return call.Args[1]
+	case isParam(call.Args[1]) && !isParam(call.Args[0]):
+		return call.Args[0]
+	}
+	return nil
+}
+
 func compositeOf(e ast.Expr) *ast.CompositeLit {
 	e = ast.Unparen(e)
 	if u, ok := e.(*ast.UnaryExpr); ok && u.Op == token.AND {
@@ -1271,6 +1303,15 @@ func (x *Exec) valueTerm(st *State, e ast.Expr, env *Env) Term {
 		if b := x.P.Builtin(v); b == "len" || b == "cap" || b == "min" || b == "max" {
 			return Sym(b + "(" + strings.Join(args, ",") + ")")
 		}
+		// slices.IndexFunc / slices.ContainsFunc with the predicate "element equals K": the
+		// result is named by the slice and K (the search a hand-written loop would do)
+		if f := x.P.Callee(v); f != nil && len(v.Args) == 2 {
+			if full := core.FuncFullName(f); full == "slices.IndexFunc" || full == "slices.ContainsFunc" {
+				if k := EqPredicateOperand(x.P, v.Args[1]); k != nil {
+					return Sym("indexEq(" + args[0] + "," + x.ValueName(st, k, env) + ")" + x.Tok(v.Pos()))
+				}
+			}
+		}
 		fname := x.canonEnv(v.Fun, env)
 		if se, ok := ast.Unparen(v.Fun).(*ast.SelectorExpr); ok && x.P.Info.Selections[se] != nil {
 			// method call: name the receiver by its current value
@@ -1301,6 +1342,15 @@ func (x *Exec) valueTerm(st *State, e ast.Expr, env *Env) Term {
 						if it, ok := st.Store[ik]; ok && (it.K == KSym || it.K == KConst) && it.S != ik && x.marked(st, ik) == ik {
 							subst = true
 							return it.S
+						}
+					}
+				}
+				if be, isBin := ast.Unparen(e).(*ast.BinaryExpr); isBin {
+					if _, isConst := x.P.ConstInt(be); !isConst {
+						// i+1 with i holding a named value
+						if vn, cn := x.ValueName(st, be, env), x.canonEnv(be, env); vn != cn && vn != "" {
+							subst = true
+							return vn
 						}
 					}
 				}
